@@ -156,8 +156,14 @@ def add_op(h, rng, abi, fds, maxbytes, heavy_offsets=True):
         h.call(abi, "fd_seek", fd, off, rng.randrange(0, 4), h.res()); return "fd_seek"
     if r < 0.86:
         h.call(abi, "fd_tell", fd, h.res()); return "fd_tell"
-    if r < 0.94:
+    if r < 0.92:
         h.call(abi, "fd_filestat_get", fd, stat_buf(h)); return "fd_filestat_get"
+    if r < 0.95:
+        a, l = h.path(rng.choice(["f0", "a", "b", "d0/g"]))
+        if rng.random() < 0.5:
+            h.call(abi, "path_unlink_file", 3, a, l); return "path_unlink_file"
+        q, m = h.path(rng.choice(["f0", "a", "b", "moved"]))
+        h.call(abi, "path_rename", 3, a, l, 3, q, m); return "path_rename"
     h.call(abi, "fd_close", fd); return "fd_close"
 
 
@@ -175,7 +181,7 @@ def random_history(rng, maxbytes):
                rng.choice([wo.RIGHTS_RW, wo.RIGHTS_RW, wo.R_READ, wo.R_WRITE]), wo.FD_APPEND if rng.random() < 0.25 else 0)
     for _ in range(rng.randint(3, 26)):
         add_op(h, rng, abi if rng.random() < 0.9 else rng.choice(ABIS), fds, maxbytes, heavy_offsets=not pipes)
-    for n in ("f0", "a", "b", "d0/g", "d0/new"):
+    for n in ("f0", "a", "b", "d0/g", "d0/new", "moved"):
         h.raw("cat sb/" + n)
     h.raw("ls sb")
     h.raw("ls sb/d0")
@@ -255,6 +261,47 @@ def systematic(rng, maxbytes):
     return out
 
 
+def open_file_identity(rng):
+    """an OPEN descriptor keeps denoting its file when the name is unlinked, renamed away, or bound to another file:
+    fd_filestat_get (both ABIs), fd_read / fd_write / fd_seek on it afterwards"""
+    out = []
+    for abi in ABIS:
+        for what in ("unlink", "rename-away", "rename-over", "rename-over-then-open", "unlink-then-create"):
+            for rights in (wo.RIGHTS_RW, wo.R_READ):
+                h = new_hist()
+                h.raw("mkfile sb/other " + b"OTHER-FILE-CONTENT".hex())
+                h.open(abi, 3, "f0", 0, rights)                               # descriptor 4 = f0 (26 bytes)
+                p, c = h.iov([5]); h.call(abi, "fd_read", 4, p, c, h.res())
+                a, l = h.path("f0")
+                if what == "unlink":
+                    h.call(abi, "path_unlink_file", 3, a, l)
+                elif what == "rename-away":
+                    q, m = h.path("moved"); h.call(abi, "path_rename", 3, a, l, 3, q, m)
+                elif what in ("rename-over", "rename-over-then-open"):
+                    q, m = h.path("other"); h.call(abi, "path_rename", 3, q, m, 3, a, l)   # `other` now carries the name f0
+                else:
+                    h.call(abi, "path_unlink_file", 3, a, l)
+                    h.open(abi, 3, "f0", wo.O_CREAT)                           # a NEW file under the old name (descriptor 5)
+                    p, c = h.iov([b"new"]); h.call(abi, "fd_write", 5, p, c, h.res())
+                if what == "rename-over-then-open":
+                    h.open(abi, 3, "f0")                                       # descriptor 5 = the other file
+                    h.call(abi, "fd_filestat_get", 5, stat_buf(h))
+                for ab2 in ABIS:
+                    h.call(ab2, "fd_filestat_get", 4, stat_buf(h))
+                p, c = h.iov([4]); h.call(abi, "fd_read", 4, p, c, h.res())
+                h.call(abi, "fd_tell", 4, h.res())
+                h.call(abi, "fd_seek", 4, 0, 2 if abi == "p1" else 1, h.res())   # to the end: the size of the open file
+                if rights == wo.RIGHTS_RW:
+                    p, c = h.iov([b"tail"]); h.call(abi, "fd_write", 4, p, c, h.res())
+                    h.call(abi, "fd_filestat_get", 4, stat_buf(h))
+                h.call(abi, "fd_close", 4)
+                for n in ("f0", "moved", "other"):
+                    h.raw("cat sb/" + n)
+                h.raw("ls sb")
+                out.append(("open-file-identity", h))
+    return out
+
+
 def corpus():
     d = os.path.join(vlib.TOOLS, "corpus", PROP)
     out = []
@@ -300,7 +347,10 @@ def classify(h, i, real_line, twin_line):
     call = m["call"] if m else (h.lines[i].split()[0] if i < len(h.lines) else "end")
     abi = m["abi"] if m else "-"
     rp, tp = real_line.split(), [t for t in twin_line.split() if not t.startswith("!")]
-    if call == "fd_filestat_get" and abi == "un" and len(rp) > 1 and len(tp) > 1 and rp[1] == tp[1] == "0":
+    def _hex(parts):
+        return "".join(x.split(":")[1] for x in parts[2:] if ":" in x)
+    if call == "fd_filestat_get" and abi == "un" and len(rp) > 1 and len(tp) > 1 and rp[1] == tp[1] == "0" \
+            and _hex(rp).startswith(_hex(tp)) and set(_hex(rp)[len(_hex(tp)):]) == {"0"}:
         return "unstable-filestat-overwrites-8-bytes", "wasi_unstable fd_filestat_get zeroes 64 bytes although the unstable filestat has 56: 8 guest bytes past the struct are overwritten"
     if call in ("fd_pread", "fd_pwrite") and m and MAXBYTES is not None and MAXBYTES < m["args"][3] < (1 << 63):
         return ("positional-offset-beyond-s_maxbytes",
@@ -379,7 +429,7 @@ def run(tier):
         maxbytes = wo.probe_maxbytes(d)
         global MAXBYTES
         MAXBYTES = maxbytes
-        tagged = corpus() + systematic(chk.rng, maxbytes) + nonseekable(chk.rng)
+        tagged = corpus() + systematic(chk.rng, maxbytes) + nonseekable(chk.rng) + open_file_identity(chk.rng)
         n_rand = 600 if tier == "quick" else 12000
         for _ in range(n_rand):
             tagged.append(("random", random_history(chk.rng, maxbytes)))
